@@ -154,22 +154,28 @@ def Tabs.findAtom (t : Tabs) (n : List Nat) : Nat :=
   | some m => ((m.find? (fun p => p.1 == n)).map (·.2)).getD 0
   | none => 0
 
-/-- one symbol-table entry -/
-def symbol (o : Opts) (t : Tabs) (atom : Nat) (name : List Nat) (doms : List Heu) : Tabs × List Call × List Heu :=
+/-- is the name one of the helper predicates (with the conversions that are switched on)? what does it contribute? -/
+def recognise (o : Opts) (t : Tabs) (atom : Nat) (name : List Nat) (doms : List Heu) : Tabs × List Call × List Heu × Bool :=
   let ep := if o.cEdge then edgePred name else (0, [], [], name)
-  let r : Tabs × List Call × List Heu × Bool :=
-    if o.cEdge && 0 < ep.1 then
-      let n0 := t.addNode ep.2.1
-      let n1 := n0.1.addNode ep.2.2.1
-      (n1.1, [.acycEdge (n0.2 : Int) (n1.2 : Int) [(atom : Int)]], doms, o.filter)
-    else
-      let hp := if o.cHeu then domHeuPred ep.2.2.2 else (0, [], 0, 0, 0, [])
-      if o.cHeu && 0 < hp.1 then (t, [], doms ++ [{ atom := hp.2.1, type := hp.2.2.1, bias := hp.2.2.2.1, prio := hp.2.2.2.2.1, cond := atom }], o.filter)
-      else (t, [], doms, false)
+  if o.cEdge && 0 < ep.1 then
+    let n0 := t.addNode ep.2.1
+    let n1 := n0.1.addNode ep.2.2.1
+    (n1.1, [.acycEdge (n0.2 : Int) (n1.2 : Int) [(atom : Int)]], doms, o.filter)
+  else
+    let hp := if o.cHeu then domHeuPred ep.2.2.2 else (0, [], 0, 0, 0, [])
+    if o.cHeu && 0 < hp.1 then (t, [], doms ++ [{ atom := hp.2.1, type := hp.2.2.1, bias := hp.2.2.2.1, prio := hp.2.2.2.2.1, cond := atom }], o.filter)
+    else (t, [], doms, false)
+
+/-- `atoms_->add(atom, name, !filter)` or the plain output -/
+def record (r : Tabs × List Call × List Heu × Bool) (atom : Nat) (name : List Nat) : Tabs × List Call × List Heu :=
   let out := if !r.2.2.2 then [Call.output name [(atom : Int)]] else []
   match r.1.atoms with
   | some m => ({ r.1 with atoms := some (if m.any (fun p => p.1 == name) then m else m ++ [(name, atom)]) }, r.2.1 ++ out, r.2.2.1)
   | none => (r.1, r.2.1 ++ out, r.2.2.1)
+
+/-- one symbol-table entry -/
+def symbol (o : Opts) (t : Tabs) (atom : Nat) (name : List Nat) (doms : List Heu) : Tabs × List Call × List Heu :=
+  record (recognise o t atom name doms) atom name
 
 def symbolsLoop (o : Opts) : Nat → AS → Tabs → List Call → List Heu → (Tabs × List Call × List Heu × Except Nat AS)
   | 0, a, t, acc, d => (t, acc, d, .error a.line)
